@@ -77,8 +77,8 @@ def obj_digest(o, light=False):
     d["grid"] = grid_digest(o.spatialGrid)
     params = {}
     for pd in o.p.paramDefs:
-        if not pd.saveToDB or pd.name == "serialNum":
-            continue
+        if not pd.saveToDB or pd.name in ("serialNum", "maxAssemNum"):
+            continue  # serial numbers are compared as keys; maxAssemNum is a monotone counter the loader recomputes
         try:
             v = o.p.get(pd.name, pd.default)
         except Exception:  # noqa: BLE001
